@@ -20,6 +20,45 @@ CHECKS = {
               "step by step by TLC (Trace_IH5.tla) including hangs as violations."),
         technique="TLA+ refinement model (IH5Overlay => H5Tree) checked by TLC + batched trace validation of real histories + replay of TLC-simulated behaviours",
         design="4/C01"),
+    "C02": dict(
+        text=("TLC checks on the record-protocol machine (all open modes, patches, discard, merge, commit sub-steps, crashes) the action "
+              "property that a committed container never changes except by the truncating 'w', and on the overlay model that the "
+              "write path only touches the newest container; the code is bound by trace validation: after every public call of "
+              "seeded protocol and data histories (both classes) the digests of all files are compared by TLC with their values at "
+              "commit time, including crash/torn-write directories."),
+        technique="TLA+ action property (FrozenStay/OldFrozen) checked by TLC + trace validation of file digests after every call",
+        design="4/C02"),
+    "C03": dict(
+        text=("The open-mode contract is part of the protocol specification IH5Record!Step; TLC explores it exhaustively for small "
+              "constants, and every cell of the matrix situation x mode x argument form x prefix-related neighbours, plus random "
+              "protocol/data histories with reopen and discard, is executed on IH5Record and IH5MFRecord and validated step by step "
+              "(outcome, exact disk effect, handle state, view as function of committed payloads, neighbours untouched)."),
+        technique="TLA+ protocol specification (IH5Record.tla) + TLC + trace validation of the complete open-mode matrix and random histories",
+        design="4/C03"),
+    "C04": dict(
+        category="model_checking",
+        text=("TLC proves on the protocol machine that the step-by-step open checks accept exactly the declaratively valid file sets "
+              "under every subset and single corruption (mutants of the checks are killed); the real classes are bound by fault "
+              "enumeration: real records are damaged (payload byte flips, truncation, extension, removal, fork/foreign substitution, "
+              "duplicates, user block and manifest edits), each damaged set is described from its bytes and TLC decides from the "
+              "specification whether the observed open outcome is right."),
+        technique="TLA+ validity specification checked by TLC (OpenChecks <=> Valid) + fault enumeration on real files judged by the specification",
+        design="4/C04"),
+    "C05": dict(
+        text=("Merge is an action of the protocol specification (refused with an open patch, creates exactly one committed container "
+              "carrying the newest identity, source untouched) and the overlay model proves View(Merged(files)) = View(files) in every "
+              "reachable state; scripted and random histories with merges at various points and follow-up patches are executed on both "
+              "classes and validated by TLC (merged view, source object and bytes unchanged, follow-up patches of the source open on "
+              "top of the merged container with the same view)."),
+        technique="TLA+ overlay invariant MergeOK + protocol action Merge checked by TLC + trace validation of merge histories",
+        design="4/C05"),
+    "C11": dict(
+        text=("Commit is split into its sub-steps in the protocol machine with a Crash after each; TLC checks that the committed subset "
+              "stays a valid record and that nothing opens cleanly with an unhashed payload. The code is bound by crash enumeration: "
+              "directory snapshots at every API boundary, every prefix length of the commit's user-block write, torn manifests and "
+              "SIGKILLed child processes; each crash directory is described from bytes, opened, and judged by TLC."),
+        technique="TLA+ crash sub-step model checked by TLC + enumeration of crash/torn-write directories judged by the specification",
+        design="4/C11"),
 }
 
 NOT_YET = "check not built yet (work in progress)"
